@@ -747,6 +747,17 @@ class Model(Object):
             or len(rxn.id) < 1
             or any(char.isspace() for char in rxn.id)
         ]
+        bad_ids += [
+            met
+            for rxn in pruned
+            for met in rxn.metabolites
+            if met not in self.metabolites
+            and (
+                not isinstance(met.id, str)
+                or len(met.id) < 1
+                or any(char.isspace() for char in met.id)
+            )
+        ]
         if len(bad_ids) != 0:
             raise ValueError(f"invalid identifiers in {repr(bad_ids)}")
 
